@@ -345,10 +345,14 @@ impl Router {
                     // domain. Ungated `let` (read only inside the gated
                     // assert) → dropped by the optimizer in release.
                     let inserted_host = hostname.clone().into_bytes();
-                    self.tree.domain_insert(
+                    if self.tree.domain_insert(
                         hostname.into_bytes(),
                         vec![(path.to_owned(), method.to_owned(), cluster.to_owned())],
-                    );
+                    ) != pattern_trie::InsertResult::Ok
+                    {
+                        // the hostname is not a key the trie can store: refuse the frontend
+                        return false;
+                    }
                     // A fresh domain must now be reachable, carrying the
                     // single rule just inserted. Use `domain_lookup_mut`
                     // (not the immutable `domain_lookup`): only the `_mut`
